@@ -19,10 +19,15 @@ type vfC16Case struct {
 	StreamID string `json:"stream_id"`
 	Secret   string `json:"secret"`
 	Reply    string `json:"reply"`
+	// Prior: the judged handshake is the second one of the same Component value - after a first stream (another id,
+	// confirmed by the server) that was then lost; Component.Resume() connects again
+	Prior   bool   `json:"prior,omitempty"`
+	PriorID string `json:"prior_id,omitempty"`
 }
 
 var vfC16Replies = []string{"handshake", "handshake", "handshake-text", "stream-error:not-authorized", "stream-error:host-unknown", "stream-error:conflict", "stream-error:vf-unknown",
-	"stanza", "sasl-success", "sm-element", "malformed", "close", "rst", "features", "unknown-ns-then-handshake", "unknown-ns-only", "unknown-name-then-handshake"}
+	"stanza", "sasl-success", "sm-element", "malformed", "close", "rst", "features", "unknown-ns-then-handshake", "unknown-ns-only", "unknown-name-then-handshake",
+	"truncated-in-content", "truncated-in-start-tag", "truncated-in-end-tag", "truncated-with-child"}
 
 func vfAttrEsc(s string) string {
 	r := strings.NewReplacer("&", "&amp;", "<", "&lt;", ">", "&gt;", "'", "&apos;", "\"", "&quot;", "\n", "&#10;", "\r", "&#13;", "\t", "&#9;")
@@ -34,7 +39,21 @@ func vfC16Run(run *vfkit.Run, cs *vfC16Case) {
 	var got bool
 	var mu sync.Mutex
 	sentAfter := make(chan struct{})
+	release := make(chan struct{})
 	peer := vfNewPeer(func(pc *vfPeerConn) {
+		if cs.Prior && pc.N == 0 {
+			if _, err := pc.Expect("stream"); err != nil {
+				return
+			}
+			pc.Send(fmt.Sprintf("<?xml version='1.0'?><stream:stream xmlns:stream='http://etherx.jabber.org/streams' xmlns='jabber:component:accept' from='comp.localhost' id='%s'>", vfAttrEsc(cs.PriorID)))
+			if e, err := pc.Next(); err != nil || !e.Is("", "handshake") {
+				return
+			}
+			pc.Send("<handshake/>")
+			<-release
+			pc.Close()
+			return
+		}
 		defer close(sentAfter)
 		if _, err := pc.Expect("stream"); err != nil {
 			return
@@ -70,6 +89,22 @@ func vfC16Run(run *vfkit.Run, cs *vfC16Case) {
 			pc.Send("<notice xmlns='urn:vf:unknown'>maintenance</notice>")
 		case cs.Reply == "unknown-name-then-handshake":
 			pc.Send("<shakehand/><handshake/>" + stanzaAfter)
+		case cs.Reply == "truncated-in-content": // the connection dies after the start tag was delivered
+			pc.Send("<handshake>0123")
+			pc.Close()
+			return
+		case cs.Reply == "truncated-in-start-tag":
+			pc.Send("<handshake xmlns='jabber:component:acc")
+			pc.Close()
+			return
+		case cs.Reply == "truncated-in-end-tag":
+			pc.Send("<handshake></handsh")
+			pc.Close()
+			return
+		case cs.Reply == "truncated-with-child":
+			pc.Send("<handshake><x>")
+			pc.Close()
+			return
 		case cs.Reply == "malformed":
 			pc.Send("<handshake <<")
 		case cs.Reply == "rst":
@@ -96,7 +131,26 @@ func vfC16Run(run *vfkit.Run, cs *vfC16Case) {
 	obs.catchAll(router)
 	comp, _ := NewComponent(ComponentOptions{TransportConfiguration: TransportConfiguration{Address: peer.Addr(), ConnectTimeout: 1}, Domain: "comp.localhost", Secret: cs.Secret}, router, obs.onError)
 	comp.SetHandler(obs.onEvent)
-	cerr := comp.Connect()
+	var cerr error
+	if cs.Prior {
+		if err := comp.Connect(); err != nil {
+			close(release)
+			run.Inconclusive("prior-stream-failed")
+			return
+		}
+		close(release)
+		if !vfWaitUntil(10*time.Second, func() bool { return obs.CountState(StateDisconnected) >= 1 }) {
+			run.Inconclusive("prior-stream-not-lost")
+			go comp.Disconnect()
+			return
+		}
+		obs.reset()
+		cerr = comp.Resume()
+		run.Count("second_handshakes_judged", 1)
+	} else {
+		close(release)
+		cerr = comp.Connect()
+	}
 	mu.Lock()
 	text, seen := hsText, got
 	mu.Unlock()
@@ -203,6 +257,10 @@ func TestVf_C16(t *testing.T) {
 					cs.Secret = strings.Repeat("s3cr&t<", r.Intn(100))
 				default:
 					cs.Secret = vfkit.Text(r, 20, true)
+				}
+				if r.Intn(4) == 0 {
+					cs.Prior = true
+					cs.PriorID = vfkit.Text(r, 16, false)
 				}
 				run.Case(cs)
 				if c < 3 {
